@@ -204,8 +204,10 @@ def isZeroQ (v : Bytes) : Bool :=
   let v := match v with | 43 :: r => r | 45 :: r => r | r => r
   !v.isEmpty ∧ v.all (fun b => b = 48 ∨ b = 46) ∧ v.any (· = 48) ∧ (v.filter (· = 46)).length ≤ 1
 
-def acceptedEncoding (header : Bytes) : String :=
-  let named : List Bytes := (splitOn 44 header).filterMap fun part =>
+/-- the coding names an Accept-Encoding value offers: per comma-separated part,
+    the token before any parameters, trimmed and lower-cased, unless it has q=0 -/
+def namedCodings (header : Bytes) : List Bytes :=
+  (splitOn 44 header).filterMap fun part =>
     match splitOn 59 part with
     | [] => none
     | nameB :: params =>
@@ -216,10 +218,15 @@ def acceptedEncoding (header : Bytes) : String :=
         | k :: v :: rest => ((trimSp k).map asciiLower == [113]) ∧ isZeroQ (v ++ (rest.map (fun x => 61 :: x)).flatten)
         | _ => false
       if refused then none else some name
-  let has (s : String) := named.contains s.toUTF8.toList
-  if has "gzip" then "gzip" else if has "deflate" then "deflate" else if has "br" then "br"
-  else if has "zstd" then "zstd" else ""
 
+def supportedCodings : List String := ["gzip", "deflate", "br", "zstd"]
+
+def acceptedEncoding (header : Bytes) : String :=
+  (supportedCodings.find? fun c => (namedCodings header).contains c.toUTF8.toList).getD ""
+
+/-! ### HTTP responses -/
+
+/-- the handler writes the response of request `r` (`HttpContext.Write` refuses a second write) -/
 def World.answer (w : World) (r : Nat) (resp : Resp) : World :=
   if (w.reqs.getD r default).resp.isSome then w else
   let w := w.ev s!"req:write:{r}"
